@@ -81,6 +81,16 @@ func main() {
 						Op: token.LSS,
 						Y:  &ast.CallExpr{Fun: ast.NewIdent("cap"), Args: []ast.Expr{s.Chan}}}}}}}}
 				out = append(out, &ast.ExprStmt{X: &ast.CallExpr{Fun: &ast.SelectorExpr{X: ast.NewIdent("sync"), Sel: ast.NewIdent("BeforeSend")}, Args: []ast.Expr{ready}}})
+			case *ast.AssignStmt, *ast.ExprStmt, *ast.DeclStmt, *ast.ReturnStmt, *ast.IfStmt:
+				// a plain (blocking) receive inside the statement's own expressions
+				for _, ch := range receivesOf(st) {
+					ready := &ast.FuncLit{Type: &ast.FuncType{Params: &ast.FieldList{}, Results: &ast.FieldList{List: []*ast.Field{{Type: ast.NewIdent("bool")}}}},
+						Body: &ast.BlockStmt{List: []ast.Stmt{&ast.ReturnStmt{Results: []ast.Expr{&ast.BinaryExpr{
+							X:  &ast.CallExpr{Fun: ast.NewIdent("len"), Args: []ast.Expr{ch}},
+							Op: token.GTR,
+							Y:  &ast.BasicLit{Kind: token.INT, Value: "0"}}}}}}}
+					out = append(out, &ast.ExprStmt{X: &ast.CallExpr{Fun: &ast.SelectorExpr{X: ast.NewIdent("sync"), Sel: ast.NewIdent("BeforeRecv")}, Args: []ast.Expr{ready}}})
+				}
 			case *ast.SelectStmt:
 				hasDefault := false
 				for _, c := range s.Body.List {
@@ -122,24 +132,21 @@ func main() {
 		}
 		return true
 	})
-	// plain (blocking) receives outside a select are not supported
-	var inSelect int
-	var walk func(n ast.Node) bool
-	walk = func(n ast.Node) bool {
-		switch x := n.(type) {
-		case *ast.SelectStmt:
-			inSelect++
-			ast.Inspect(x.Body, walk)
-			inSelect--
-			return false
-		case *ast.UnaryExpr:
-			if x.Op == token.ARROW && inSelect == 0 {
-				unsupported(fset, x, "blocking channel receive")
-			}
+	// a receive used as the condition of a for loop cannot be hooked by a preceding statement
+	ast.Inspect(f, func(n ast.Node) bool {
+		if fs, ok := n.(*ast.ForStmt); ok && fs.Cond != nil {
+			ast.Inspect(fs.Cond, func(m ast.Node) bool {
+				if u, ok := m.(*ast.UnaryExpr); ok && u.Op == token.ARROW {
+					unsupported(fset, u, "channel receive in a for condition")
+				}
+				return true
+			})
+		}
+		if rs, ok := n.(*ast.RangeStmt); ok {
+			_ = rs // ranging over a channel would block; transport.go does not do it (types are not known here)
 		}
 		return true
-	}
-	ast.Inspect(f, walk)
+	})
 	var buf bytes.Buffer
 	if err := format.Node(&buf, fset, f); err != nil {
 		fmt.Fprintln(os.Stderr, err)
@@ -166,4 +173,48 @@ func must(err error) {
 		fmt.Fprintln(os.Stderr, err)
 		os.Exit(2)
 	}
+}
+
+// receivesOf lists the channel operands of receive expressions that belong to the statement itself
+// (not to nested blocks or function literals, which are rewritten when their own lists are visited).
+func receivesOf(st ast.Stmt) []ast.Expr {
+	var out []ast.Expr
+	var exprs []ast.Expr
+	switch s := st.(type) {
+	case *ast.AssignStmt:
+		exprs = s.Rhs
+	case *ast.ExprStmt:
+		exprs = []ast.Expr{s.X}
+	case *ast.ReturnStmt:
+		exprs = s.Results
+	case *ast.IfStmt:
+		if s.Cond != nil {
+			exprs = []ast.Expr{s.Cond}
+		}
+		if a, ok := s.Init.(*ast.AssignStmt); ok {
+			exprs = append(exprs, a.Rhs...)
+		}
+	case *ast.DeclStmt:
+		if gd, ok := s.Decl.(*ast.GenDecl); ok {
+			for _, sp := range gd.Specs {
+				if vs, ok := sp.(*ast.ValueSpec); ok {
+					exprs = append(exprs, vs.Values...)
+				}
+			}
+		}
+	}
+	for _, e := range exprs {
+		ast.Inspect(e, func(n ast.Node) bool {
+			switch x := n.(type) {
+			case *ast.FuncLit:
+				return false
+			case *ast.UnaryExpr:
+				if x.Op == token.ARROW {
+					out = append(out, x.X)
+				}
+			}
+			return true
+		})
+	}
+	return out
 }
